@@ -20,6 +20,10 @@ type Logger struct {
 }
 
 func (l *Logger) emit(level, format string, args ...interface{}) {
+	if l.w.Quiet {
+		l.w.QuietYield("log:" + format)
+		return
+	}
 	msg := fmt.Sprintf(format, args...)
 	l.w.Rec(Ev{Actor: "log", Kind: "log", S: level + "|" + format + "|" + msg})
 	l.w.Park("log:" + format)
@@ -37,6 +41,10 @@ func (l *Logger) Debugf(ctx context.Context, format string, args ...interface{})
 
 // Record stores the record minus the keys this very call asks to obscure.
 func (l *Logger) Record(ctx context.Context, r map[string]string, obscure ...string) {
+	if l.w.Quiet {
+		l.w.QuietYield("log:record")
+		return
+	}
 	keys := make([]string, 0, len(r))
 	ob := map[string]bool{}
 	for _, k := range obscure {
@@ -58,6 +66,9 @@ func (l *Logger) Record(ctx context.Context, r map[string]string, obscure ...str
 
 // SetFields is the shared implementation used by the typed adapter in package sut.
 func (l *Logger) SetFields(ctx context.Context, fields map[string]string, keys []string) context.Context {
+	if l.w.Quiet {
+		return ctx
+	}
 	var b strings.Builder
 	for _, k := range keys {
 		if v, ok := fields[k]; ok {
@@ -77,6 +88,10 @@ type Sink struct {
 }
 
 func (s *Sink) Printf(format string, args ...interface{}) {
+	if s.w.Quiet {
+		s.w.QuietYield("sink")
+		return
+	}
 	s.w.Rec(Ev{Actor: "sink", Kind: "sink", S: fmt.Sprintf(format, args...)})
 	s.w.Park("sink")
 }
